@@ -229,8 +229,15 @@ func pipeResultReader(message any, reader *messages.Reader, codec messages.Codec
 	var errorCode int32
 	var errorMessage string
 
-	if m.Message, err = reader.ReadMessage(codec); err != nil {
+	// 失败结果不携带消息（Message 为 nil）：以存在标记区分，nil 消息本身无法被编码
+	var hasMessage bool
+	if err = reader.ReadInto(&hasMessage); err != nil {
 		return err
+	}
+	if hasMessage {
+		if m.Message, err = reader.ReadMessage(codec); err != nil {
+			return err
+		}
 	}
 
 	if err = reader.ReadInto(&m.Id, &errorCode, &errorMessage); err != nil {
@@ -262,8 +269,16 @@ func pipeResultReader(message any, reader *messages.Reader, codec messages.Codec
 func pipeResultWriter(message any, writer *messages.Writer, codec messages.Codec) (err error) {
 	m := message.(*PipeResult)
 
-	if err = writer.WriteMessage(m.Message, codec); err != nil {
+	// 失败结果（超时、Actor 已死亡等）的 Message 为 nil，而 nil 消息无法被编码：
+	// 此前失败结果因此永远无法送达远程的转发目标。先写入存在标记，仅在有消息时写入消息
+	hasMessage := m.Message != nil
+	if err = writer.WriteFrom(hasMessage); err != nil {
 		return err
+	}
+	if hasMessage {
+		if err = writer.WriteMessage(m.Message, codec); err != nil {
+			return err
+		}
 	}
 
 	var errorCode int32
